@@ -112,6 +112,37 @@ def check_validate(ctx, idx, rule="C05.c"):
                 if side and all(cfg.must_pass_through(m, cfg.exit, set(raises)) for m in side):
                     ok = True
                     why = "every shape that differs from the reference is collected from %s; MixedArrayShapes is raised whenever the collection is not empty" % K.src(g.iter)
+    if not ok and raises:
+        # form D: `first = next((a for a in arrays[1:] if a.shape != ref), None)` and MixedArrayShapes raised exactly when
+        # `first is not None`.  (The truth value of what was found is not that test: an array of zeros is false, an array
+        # of several cells has none, the shape of a 0-d array is the empty tuple.)
+        for n in own_nodes(fi.node):
+            if not (isinstance(n, ast.Assign) and len(n.targets) == 1 and isinstance(n.targets[0], ast.Name) and isinstance(n.value, ast.Call) and isinstance(n.value.func, ast.Name) and n.value.func.id == "next"
+                    and len(n.value.args) == 2 and isinstance(n.value.args[1], ast.Constant) and n.value.args[1].value is None and isinstance(n.value.args[0], ast.GeneratorExp) and len(n.value.args[0].generators) == 1):
+                continue
+            g = n.value.args[0].generators[0]
+            whole = (isinstance(g.iter, ast.Name) and g.iter.id == arg) or (isinstance(g.iter, ast.Subscript) and isinstance(g.iter.value, ast.Name) and g.iter.value.id == arg and isinstance(g.iter.slice, ast.Slice) and g.iter.slice.upper is None and g.iter.slice.step is None and (g.iter.slice.lower is None or (isinstance(g.iter.slice.lower, ast.Constant) and g.iter.slice.lower.value in (0, 1))))
+            if not whole or len(g.ifs) != 1 or not isinstance(g.target, ast.Name):
+                continue
+            c0 = K.expand(fi, g.ifs[0])
+            if not (isinstance(c0, ast.Compare) and len(c0.ops) == 1 and isinstance(c0.ops[0], ast.NotEq) and any(isinstance(x, ast.Attribute) and x.attr == "shape" and isinstance(x.value, ast.Name) and x.value.id == g.target.id for x in ast.walk(c0))):
+                continue
+            terms = [_shape_term(x_, g.target.id) for x_ in [c0.left] + list(c0.comparators)]
+            if "projection" in terms and "exact" not in terms:
+                why = "the shapes are compared through `%s`, a quantity computed from the shape, not the shapes themselves" % K.src(c0)[:70]
+                continue
+            found = n.targets[0].id
+            for t2 in cfg.find("test"):
+                a2 = t2.ast
+                if not (isinstance(a2, ast.Compare) and len(a2.ops) == 1 and isinstance(a2.ops[0], (ast.Is, ast.IsNot)) and isinstance(a2.left, ast.Name) and a2.left.id == found
+                        and isinstance(a2.comparators[0], ast.Constant) and a2.comparators[0].value is None):
+                    if isinstance(a2, ast.Name) and a2.id == found or (isinstance(a2, ast.UnaryOp) and isinstance(a2.operand, ast.Name) and a2.operand.id == found):
+                        why = "the array found by `next(...)` is tested for truth (`%s`), not for being there: an array of zeros counts as no mismatch, an array of several cells has no truth value" % K.src(a2)
+                    continue
+                side = [m for m, l in t2.succ if l == ("true" if isinstance(a2.ops[0], ast.IsNot) else "false")]
+                if side and all(cfg.must_pass_through(m, cfg.exit, set(raises)) for m in side):
+                    ok = True
+                    why = "the first shape that differs from the reference is looked for in %s; MixedArrayShapes is raised whenever one is found" % K.src(g.iter)
     # the early `return` for short lists must not exceed one element
     for t in cfg.find("test"):
         s = K.src(t.ast)
